@@ -43,6 +43,7 @@ Proof.
             try match goal with E : (_ =? _)%Z = true |- _ => apply Z.eqb_eq in E; rewrite E end;
             unfold offset_key; cbn [Z.eqb Z.ltb Z.compare Pos.compare known]; rewrite ?H0; reflexivity).
   all: rewrite ?ER, ?ES, ?ESub; cbn [known knownb call2 call3 String.eqb Ascii.eqb Bool.eqb]; rewrite ?known_wrap;
+       try match goal with |- context [if ?x && is_zero_start ?p then _ else _] => destruct (x && is_zero_start p) end;
        repeat (apply andb_true_intro; split); auto.
 Qed.
 
